@@ -5,7 +5,7 @@ import copy
 import torch
 from typing import Sequence, Union, Dict, List
 from xitorch._utils.exceptions import GetSetParamsError
-from xitorch._utils.attr import get_attr, set_attr, del_attr
+from xitorch._utils.attr import get_attr, set_attr, del_attr, _setattr_keep_slot
 
 __all__ = ["EditableModule"]
 
@@ -338,10 +338,10 @@ class EditableModule(object):
         # copy the tensors and require them to be differentiable
         copy_tensors0 = [tensor.clone().detach().requires_grad_() for tensor in all_tensors]
         copy_tensors = copy.copy(copy_tensors0)
-        _set_tensors(self, copy_tensors)
 
         # run the method and see which one has the gradients
         try:
+            _set_tensors(self, copy_tensors)
             output = method(*args, **kwargs)
             if isinstance(output, (list, tuple)) and len(output) > 0 and \
                     all(isinstance(out, torch.Tensor) for out in output):
@@ -374,7 +374,7 @@ class _ModuleParamSetter(object):
         self.module = module
 
     def __setitem__(self, key, val):
-        set_attr(self.module, key, val)
+        _setattr_keep_slot(self.module, key, val)
 
 def _traverse_obj(obj, prefix, action, crit, max_depth=20, exception_ids=None):
     """
@@ -398,6 +398,10 @@ def _traverse_obj(obj, prefix, action, crit, max_depth=20, exception_ids=None):
         generators = [obj.__dict__.items()]
         name_format = "{prefix}{key}"
         objdicts = [obj.__dict__]
+    elif isinstance(obj, (tuple, str, bytes, set, frozenset)):
+        # immutable (or unordered) containers cannot be written to: what they hold
+        # is content of the object, not one of its replaceable tensors
+        return
     elif hasattr(obj, "__iter__"):
         generators = [obj.items() if isinstance(obj, dict) else enumerate(obj)]
         name_format = "{prefix}[{key}]"
